@@ -57,6 +57,7 @@ def cases(ctx):
             # y built on a version of LeafTwin whose constant has another value
             "const": draw(st.sampled_from([None, None, None, 5, 3])),
             "prune": draw(st.sampled_from([False, False, False, True])),
+            "init_sequences": draw(st.sampled_from([False, False, True])),
         }
 
     return _cases()
@@ -165,6 +166,8 @@ def prop(ctx, case):
     bp = case["bp"]
     if case.get("prune"):
         bp = ed.prune_towards_v(bp) or bp
+    if case.get("init_sequences"):
+        bp = ed.give_init_sequences(bp) or bp
     bp2 = bp
     applied = []
     for e in case["edits"]:
